@@ -128,7 +128,22 @@ class Ctx:
                "sha256": hashlib.sha256(seg.encode()).hexdigest()[:16]}
         if rec not in self.functions:
             self.functions.append(rec)
+        self.check_decorators(node, f"{rel}:{qualname}")
         return node
+
+    # decorators the units know how to treat (2.2): binding forms, typing markers, the tty decorators (pre-condition / transparent lock),
+    # the caching decorators (their own contracts, C15), the repository's descriptor helpers.  Any other decorator may change what a
+    # call of the function means (e.g. a cache returning one shared object), so the body alone no longer says what the function does
+    KNOWN_DECORATORS = {"classmethod", "staticmethod", "property", "abstractmethod", "overload", "override", "no_type_check", "wraps",
+                        "lock_tty", "unix_tty_only", "no_redecorate", "cached", "terminal_size_cached", "dataclass", "dataclass_transform",
+                        "register", "_close_validated", "ClassInstanceMethod", "instancemethod", "setter", "getter", "deleter"}
+
+    def check_decorators(self, node, where):
+        for d in getattr(node, "decorator_list", []):
+            t = d.func if isinstance(d, ast.Call) else d
+            name = t.attr if isinstance(t, ast.Attribute) else getattr(t, "id", None)
+            if name not in self.KNOWN_DECORATORS:
+                raise Unsupported(f"decorator @{ast.unparse(d)} on {where} is not modelled (it may change what a call of the function means)")
 
     def fn_all(self, rel, qualname):
         """all definitions with that qualified name (property getter / setter pairs), in source order"""
